@@ -1,5 +1,6 @@
 import ZmqVerif.Lemmas.FQProgress
 import ZmqVerif.Lemmas.FQFair
+import ZmqVerif.Lemmas.FQReturns
 /-!
 # C06 — a waiting receiver is always woken, and no peer is starved
 
@@ -78,6 +79,29 @@ theorem C06_no_spin (ops : List Op) (t k : Nat) (rest : List (Nat × Nat)) :
   refine ⟨h.1, h.2.1, h.2.2.1, h.2.2.2, ?_⟩
   have hmem : k ∈ s.seen := by simpa using hseen
   simp [step, doRecv, hpc, doA, hpop, hmem, yieldNow]
+
+/-- Every call returns (finding D17): from ANY reachable state — in the middle of a call, with
+the budget exhausted or not — at most `variant s ≤ 3·|heap| + 3` receiver sections bring the
+receiver to `Ready` (idle) or `Pending` (parked); no environment step is needed for that.  The
+variant counts the queued events of streams that have not yet returned `Pending` in this call. -/
+theorem C06_call_returns (ops : List Op) :
+    let s := ops.foldl step {}
+    ∃ n, n ≤ variant s ∧ ((recvN n s).pc = .idle ∨ (recvN n s).pc = .parked) :=
+  poll_returns _ _ (Nat.le_refl _)
+
+/-- … in particular a call that starts now returns within `3·|heap| + 1` sections. -/
+theorem C06_poll_returns (ops : List Op) :
+    let s := ops.foldl step {}
+    (s.pc = .idle ∨ s.pc = .parked) →
+      ∃ n, n ≤ 3 * s.heap.length + 1 ∧
+        ((recvN n (step s .pollStart)).pc = .idle ∨ (recvN n (step s .pollStart)).pc = .parked) :=
+  fun h => poll_returns_from_start _ h
+
+/-- The ORIGINAL loop (section A ignoring `seen`) does not have this property: after
+`insert 1; exhaust; poll` it is still inside the same call after any number of rounds. -/
+theorem C06_original_loop_spins (n : Nat) :
+    (recvOldN (3 * n) ([Op.insert 1, .exhaust, .pollStart].foldl step {})).pc = .a :=
+  (old_loop_spins n).1
 
 theorem C06_exhausted_poll (ops : List Op) (t k : Nat) :
     let s := ops.foldl step {}
